@@ -976,6 +976,24 @@ async fn receivership_inner(w: &mut World, m: &mut Mon, r: &mut R, lev: &Lev, re
     let rkc = clone_kp(&rk);
     let max = bisect_max(w, m, &[&rk], pos, |w, x| receivership_ixs(w, le, &rkc, Some((ca, x, false)), Some((db, repay_amt, false)), with_init, &tas)).await;
     m.r.count(if max.is_some() { "scen.receivership_boundary_found" } else { "scen.receivership_not_possible" });
+    // the receiver pays the whole debt off (repay-all) and takes collateral: an account without debt
+    // that keeps collateral is healthy again, so unless everything it has is worth less than the
+    // premium allows (or the account is tiny) the end must refuse; whatever is accepted is judged
+    if r.gen_bool(0.5) {
+        let rkc = clone_kp(&rk);
+        let tas3 = tas.clone();
+        let mx_all = bisect_max(w, m, &[&rk], pos, |w, x| receivership_ixs(w, le, &rkc, Some((ca, x, false)), Some((db, 0, true)), with_init, &tas3)).await;
+        m.r.count(if mx_all.is_some() { "scen.receivership_whole_debt_repaid_some_seizure_accepted" } else { "scen.receivership_whole_debt_repaid_refused" });
+        for x in [1u64, pos / 50 + 1, pos / 21, pos / 20 + 1] {
+            let ixs = receivership_ixs(w, le, &rk, Some((ca, x, false)), Some((db, 0, true)), with_init, &tas);
+            let o = w.probe(m, &ixs, &[&rk]).await;
+            m.r.count(if o.ok() { "scen.receivership_whole_debt_probe_accepted" } else { "scen.receivership_whole_debt_probe_refused" });
+        }
+        // ... and takes nothing at all
+        let ixs = receivership_ixs(w, le, &rk, None, Some((db, 0, true)), with_init, &tas);
+        let _ = w.probe(m, &ixs, &[&rk]).await;
+        m.r.count("scen.receivership_whole_debt_rounds");
+    }
     if let Some(mx) = max {
         let amt = pick(r, &[mx, mx / 2 + 1, 1]);
         let ixs = receivership_ixs(w, le, &rk, Some((ca, amt, false)), Some((db, repay_amt, false)), with_init, &tas);
